@@ -57,7 +57,11 @@ func vC20KMeans(c *vCtx, d, maxLen, part, parts int) {
 		}
 	}
 	metrics := []DistanceKind{Euclidean, L2Squared, Cosine}
-	cfgS := fmt.Sprintf("kmeans d=%d", d)
+	cfgS := fmt.Sprintf("kmeans d=%d", d) + vXFTag()
+	pts = vXFVecs(pts)
+	if vXF.Off != 0 {
+		metrics = metrics[:2] // a common offset makes all directions alike
+	}
 	n := 0
 	for _, seq := range vSequences(len(pts), 1, maxLen) {
 		n++
@@ -87,7 +91,7 @@ func vC20KMeans(c *vCtx, d, maxLen, part, parts int) {
 			for k := -1; k <= 6; k++ {
 				var conv [][]float32
 				var convMap []int
-				for _, maxIter := range []int{-1, 0, 1, 2, 100, 200} {
+				for _, maxIter := range []int{-1, 0, 1, 2, 100, 101} {
 					c.Evaluations++
 					desc := func() string {
 						return fmt.Sprintf("train=%v metric=%s k=%d maxIter=%d", orig, metric, k, maxIter)
@@ -137,8 +141,9 @@ func vC20KMeans(c *vCtx, d, maxLen, part, parts int) {
 					if maxIter == 100 {
 						conv, convMap = cen, mp
 					}
-					if maxIter == 200 && vDeepEq(conv, cen) && vIntsEq(convMap, mp) {
-						// converged: every vector is mapped to (one of) its nearest centroid(s)
+					if maxIter == 101 && vDeepEq(conv, cen) && vIntsEq(convMap, mp) {
+						// converged (one more iteration changes nothing, which also rules out a
+						// cycle): every vector is mapped to (one of) its nearest centroid(s)
 						for i, v := range train {
 							best := float32(math.Inf(1))
 							for _, ce := range cen {
@@ -174,7 +179,7 @@ func vC20KMeans(c *vCtx, d, maxLen, part, parts int) {
 			c.Violation("kmeans-subspace-differs", "", cfgS, nil, fmt.Sprintf("%v/%v vs %v/%v", a, am, b, bm))
 		}
 	}
-	c.Sample(fmt.Sprintf("d=%d train=%v k=-1..6 maxIter in {-1,0,1,2,100,200} x 3 metrics", d, pts[:3]))
+	c.Sample(fmt.Sprintf("d=%d train=%v k=-1..6 maxIter in {-1,0,1,2,100,101} x 3 metrics", d, pts[:3]))
 	c.Bound = fmt.Sprintf("all training sequences of length 1..%d over the %d-point lattice", maxLen, len(pts))
 }
 
@@ -194,14 +199,14 @@ func vC20KMeansSweep(c *vCtx, maxN int) {
 // vC20KMeansSizes runs the k-means laws for the given training-set sizes (ks == nil: the
 // size-dependent k alphabet of the sweep).
 func vC20KMeansSizes(c *vCtx, sizes []int, ks0 []int) {
-	cfgS := "kmeans sweep"
+	cfgS := "kmeans sweep" + vXFTag()
 	for _, d := range []int{3, 5} {
 		for si, n := range sizes {
 			if si%8 == 0 && c.Expired() {
 				c.Bound = fmt.Sprintf("kmeans sizes: deadline before n=%d", n)
 				return
 			}
-			train := vStructuredVecs(d, n)
+			train := vXFVecs(vStructuredVecs(d, n))
 			for i := 7; i < n; i += 7 {
 				train[i] = vCopyVec(train[i-7]) // duplicates
 			}
@@ -261,8 +266,8 @@ func vC20KMeansSizes(c *vCtx, sizes []int, ks0 []int) {
 					if !vDeepEq(cen, cen2) || !vIntsEq(mp, mp2) {
 						c.Violation("kmeans-nondeterministic", "sweep", cfgS, nil, desc)
 					}
-					cen3, mp3 := KMeans(train, k, dist, 200)
-					if vDeepEq(cen, cen3) && vIntsEq(mp, mp3) {
+					cen3, mp3 := KMeans(train, k, dist, 101)
+					if vDeepEq(cen, cen3) && vIntsEq(mp, mp3) && !(metric == Cosine && vXF.Off != 0) {
 						for i, v := range train {
 							best := float32(math.Inf(1))
 							for _, ce := range cen {
@@ -677,8 +682,8 @@ func vC20Float(c *vCtx, tier string, part, parts int) {
 func init() {
 	vRegister(&vCheck{
 		ID: "C20", Level: "exploration", Engine: "domainmc",
-		Rule:        "k-means: ALL training sequences of length 1..L (L=3 quick for d=2, 4 thorough; 4 for d=1) over the lattice {0..3}^d, d in {1,2} (duplicates, k>n, k=n, collinear sets) x k in -1..6 x maxIter in {-1,0,1,2,100,200} x 3 metrics: nil for k<=0 / n=0, exactly min(k,n) finite centroids inside the bounding box (Euclidean family), valid mapping, identical output for a second call, input deep-equal afterwards, and when maxIter 100 and 200 agree (converged) every vector mapped to a nearest centroid. Train-twice: every trainable C02 configuration trained once vs twice then fed the same adds: identical private state and answers. Quantisers: float32 bit-exact on an alphabet with +-Inf/NaN/subnormals; float16 on ALL 65536 half bit patterns (identity) and, for every pair of adjacent normal halves, the float32 midpoint and its neighbours (<= half an ulp, result one of the two halves); thorough additionally sweeps EVERY float32 in the half-precision normal range; int8: 6 absMax x levels -127..127 x offsets {0, +-1/2, 1/4} x +-2 float32 neighbours (<= absMax/254), refusal before training / after all-zero training, input untouched. Non-trivial = distinct k-means cases with k < n that converged, distinct quantiser inputs.",
-		Assumptions: []string{"convergence is detected by equality of the maxIter=100 and maxIter=200 runs", "int8 bound absMax/254 with 1e-5 relative + 1e-6*absMax float tolerance"},
+		Rule:        "k-means: ALL training sequences of length 1..L (L=3 quick for d=2, 4 thorough; 4 for d=1) over the lattice {0..3}^d, d in {1,2} (duplicates, k>n, k=n, collinear sets) x k in -1..6 x maxIter in {-1,0,1,2,100,101} x 3 metrics: nil for k<=0 / n=0, exactly min(k,n) finite centroids inside the bounding box (Euclidean family), valid mapping, identical output for a second call, input deep-equal afterwards, and when maxIter 100 and 101 agree (converged) every vector mapped to a nearest centroid. Train-twice: every trainable C02 configuration trained once vs twice then fed the same adds: identical private state and answers. Quantisers: float32 bit-exact on an alphabet with +-Inf/NaN/subnormals; float16 on ALL 65536 half bit patterns (identity) and, for every pair of adjacent normal halves, the float32 midpoint and its neighbours (<= half an ulp, result one of the two halves); thorough additionally sweeps EVERY float32 in the half-precision normal range; int8: 6 absMax x levels -127..127 x offsets {0, +-1/2, 1/4} x +-2 float32 neighbours (<= absMax/254), refusal before training / after all-zero training, input untouched. Non-trivial = distinct k-means cases with k < n that converged, distinct quantiser inputs.",
+		Assumptions: []string{"convergence is detected by equality of the maxIter=100 and maxIter=101 runs (one more iteration changes nothing)", "int8 bound absMax/254 with 1e-5 relative + 1e-6*absMax float tolerance"},
 		Shards: func(tier string) []vShard {
 			var sh []vShard
 			l2 := 4
@@ -706,6 +711,18 @@ func init() {
 					c.Bound = fmt.Sprintf("kmeans sizes %v", sz)
 				}})
 			}
+			// affine transforms of the training data (zz_verif_vec.go)
+			for _, x := range vXFs {
+				x := x
+				sh = append(sh, vShard{Name: fmt.Sprintf("kmeans/xf/%g:%d", x.Off, x.Exp), Run: func(c *vCtx) {
+					defer vXFSet(x, Euclidean)()
+					vC20KMeans(c, 1, 4, 0, 1)
+					vC20KMeans(c, 2, 3, 0, 1)
+					vC20KMeansSweep(c, 48)
+					vC20KMeansSizes(c, []int{257, 1025}, []int{1, 2, 8, 17})
+					c.Bound = "kmeans under an affine transform of the data: lattice sequences of length <= 4 (d=1) / 3 (d=2), sizes 1..48, 257, 1025"
+				}})
+			}
 			sh = append(sh, vShard{Name: "quantizers/lengths", Run: func(c *vCtx) { vC20QuantLengths(c, qlen) }})
 			sh = append(sh, vShard{Name: "train-twice", Run: func(c *vCtx) { vC20TrainTwice(c, tier) }})
 			qd := 5
@@ -721,6 +738,8 @@ func init() {
 			return sh
 		},
 		Replay: func(c *vCtx, v *vViolation) bool {
+			defer vXFParse(v.Config, Euclidean)()
+			v.Config = vXFStrip(v.Config)
 			switch {
 			case strings.HasPrefix(v.Config, "kmeans d=1"):
 				vC20KMeans(c, 1, 4, 0, 1)
